@@ -63,10 +63,10 @@ pub fn spec(prop: &str) -> Spec {
         "C12" => (vec![s("keeper:C12", 1)], 800, 100000),
         "C13" => (vec![s("hostile:C13", 1)], 800, 150000),
         "C14" => (vec![s("proxy:C14", 1)], 1200, 300000),
-        "C15" => (vec![s("proxy:C15", 1)], 800, 300000),
+        "C15" => (vec![s("proxy:C15", 1)], 800, 120000),
         "C16" => (vec![s("provision:C16", 1)], 1200, 300000),
         "C17" => (vec![s("setup:C17", 1)], 160, 40000),
-        "C18" => (vec![s("telemetry:C18", 1)], 400, 20000),
+        "C18" => (vec![s("telemetry:C18", 1)], 400, 10000),
         "C19" => (vec![s("disk:C19", 1)], 600, 60000),
         _ => (vec![], 0, 0),
     };
